@@ -82,6 +82,27 @@ class Engine:
                             and n.args[0].value == name
                         ):
                             out[name] = f
+        # ... or through a private helper that builds the record from a name it is given (symbolic normal form:
+        # helpers inlined, so the _Call's first argument is the constant the method passed)
+        helpers = {
+            name for name, fs in seq.methods.items() if name.startswith("_") and not name.startswith("__")
+            for f in fs if any(isinstance(n, ast.Call) and (dotted(n.func) or "") == "_Call" for n in ast.walk(f.node))
+        }
+        if helpers:
+            from . import sym
+
+            for name, fs in seq.methods.items():
+                if name in out or name.startswith("_"):
+                    continue
+                for f in fs:
+                    if f.kind == "overload":
+                        continue
+                    if not any(isinstance(n, ast.Call) and isinstance(n.func, ast.Attribute) and n.func.attr in helpers and isinstance(n.func.value, ast.Name) and n.func.value.id == "self" for n in ast.walk(f.node)):
+                        continue
+                    for l in sym.sym_of(self.P, f, True).calls("_Call"):
+                        a = l.value[2]
+                        if a and a[0] == ("const", name):
+                            out[name] = f
         self._recordable = out
         return out
 
